@@ -7,7 +7,7 @@ from typing import Dict, List, Optional, Set, Tuple
 
 from ..exprs import Affine, affine, exec_int_function, int_eval
 from ..guards import controlling, modulo_atoms
-from ..loader import AnalysisError, attr_chain, dotted, norm, short
+from ..loader import AnalysisError, attr_chain, call_name, callee_attr, calls_in, dotted, norm, short
 from ..mdconf import MD, NAD, ConfTaint
 
 LEVEL = "other"
@@ -123,6 +123,8 @@ def run(ctx):
     ctx.rule("R4", "a cadence of zero suppresses the stream: every modulo guard has a positivity conjunct / early return on its modulus")
     ctx.rule("R5", "initial snapshot (label 0) written for each stream under step_offset == 0; allocation includes it")
     ctx.rule("R6", "who-may-write: HDF5 row stores and allocations use the stream's own capacity/cadence")
+    ctx.rule("R7", "a stream's sink exists whenever its own cadence is positive: writer enable flags are implied by every stream they serve")
+    _r7(ctx, repo)
 
     # ---- cadence dict is per-key -------------------------------------------------
     probs = ct.cadence_dict_is_per_key()
@@ -670,3 +672,79 @@ def _r6_alloc_labels(ctx, md, ct):
             qn = m.qualname_of(st)
             ctx.check(qn.startswith("HDF5Writer.append_"), "R6", m, st, qn, st, "row commit lives in an HDF5Writer.append_* method",
                       "HDF5 row commit outside HDF5Writer.append_* (bypasses the per-stream gate)")
+
+
+def _r7(ctx, repo):
+    """`self._do_h5 / _do_xyz / _do_screen` decide whether a writer object is created at all.  For every stream served by a writer the
+    flag must be True whenever that stream's own key is positive (and output molecules are selected), whatever the other keys are:
+    three-valued evaluation of the flag's defining expression under {own leaves: True, leaves of other streams: False, has_molid: True}."""
+    from .c18 import three_val
+    md = repo.mod(MD)
+    oc = md.classes.get("OutputConfig")
+    if oc is None:
+        raise AnalysisError("OutputConfig not found")
+    # which config keys each OutputConfig accessor reads
+    getter_keys = {}
+    for st in oc.body:
+        if isinstance(st, ast.FunctionDef):
+            keys = {c.args[0].value for c in calls_in(st) if callee_attr(c) == "get" and c.args and isinstance(c.args[0], ast.Constant) and isinstance(c.args[0].value, str)
+                    and "h5_config" in norm(c.func)}
+            if keys:
+                getter_keys[st.name] = keys
+    field_keys = {"xyz_every": {"xyz"}, "print_every": {"print every"}}
+    ini = md.func("Molecular_Dynamics_Basic.initialize")
+    flags = {"self._do_h5": [({"data"}, "data"), ({"coordinates"}, "coordinates"), ({"velocities"}, "velocities"), ({"forces"}, "forces"), ({"nonadiabatic"}, "nonadiabatic")],
+             "self._do_xyz": [({"xyz"}, "xyz")], "self._do_screen": [({"print every"}, "print every")]}
+    n = 0
+    for flag, streams in flags.items():
+        defs_ = [st for st in ast.walk(ini) if isinstance(st, ast.Assign) and any(norm(t) == flag for t in st.targets)]
+        if len(defs_) != 1:
+            raise AnalysisError(f"initialize: {flag} is not assigned exactly once")
+        expr = defs_[0].value
+
+        def leaves(e):
+            if isinstance(e, ast.BoolOp):
+                for v in e.values:
+                    yield from leaves(v)
+            elif isinstance(e, ast.UnaryOp) and isinstance(e.op, ast.Not):
+                yield from leaves(e.operand)
+            elif isinstance(e, ast.Call) and (call_name(e) or "") == "bool" and len(e.args) == 1:
+                yield from leaves(e.args[0])
+            else:
+                yield e
+
+        ct_ = ConfTaint(repo)
+        mdb = md.classes.get("Molecular_Dynamics_Basic")
+
+        def labels(leaf):
+            out = set()
+            for c in calls_in(leaf):
+                out |= getter_keys.get(callee_attr(c) or "", set())
+            for x in ast.walk(leaf):
+                if isinstance(x, ast.Attribute) and x.attr in field_keys:
+                    out |= field_keys[x.attr]
+            if not out:
+                # locals: resolved through their definitions to configuration keys
+                got = {l for l in ct_.labels(leaf, ini, mdb) if not l.startswith("?")}
+                out |= {l for l in got if l in {"data", "coordinates", "velocities", "forces", "nonadiabatic", "xyz", "print every", "transition_density_matrices"}}
+            return out
+        lvs = list(leaves(expr))
+        for own, sname in streams:
+            val = {}
+            for lf in lvs:
+                lab = labels(lf)
+                from .c18 import leaf_key
+                key, neg = leaf_key(lf)
+                if not lab:
+                    if "molid" in norm(lf):
+                        val[key] = (not neg) if True else None
+                    continue
+                truth = bool(lab & own)
+                val[key] = (truth != neg)
+            got = three_val(expr, val)
+            n += 1
+            ctx.check(got is True, "R7", md, defs_[0], "Molecular_Dynamics_Basic.initialize", f"{flag} for stream {sname}",
+                      f"{flag} is True whenever only `{sname}` has a positive cadence (and molecules are selected)",
+                      f"{flag} = `{short(norm(expr), 120)}` evaluates to {got} when `{sname}` is the only stream with a positive cadence: no writer is created, "
+                      f"the stream's appends are silently skipped and no file is produced")
+    ctx.floor("R7", 7)
